@@ -26,6 +26,11 @@ var c17Progs = []string{
 	`c := a > b ? "x" : "y"; c == "x" ? a : b`,
 	`try(func() { error("boom") }, func(e) { return a })`,
 	`const K = 5; f := func() { return K + a }; f()`,
+	`f0 := func(p) { q := p + 0; return q }; f1 := func(p) { q := p + 1; return q }; f2 := func(p) { q := p + 2; return q }; f3 := func(p) { q := p + 3; return q }; f4 := func(p) { q := p + 4; return q }; f5 := func(p) { q := p + 5; return q }; f6 := func(p) { q := p + 6; return q }; f7 := func(p) { q := p + 7; return q }; f8 := func(p) { q := p + 8; return q }; f9 := func(p) { q := p + 9; return q }; f10 := func(p) { q := p + 10; return q }; f11 := func(p) { q := p + 11; return q }; f0(a) + f10(a) + f11(b)`,
+	`outer := func(n) { func fact(k) { if k <= 1 { return 1 }; return k * fact(k - 1) }; return fact(n) }; outer(4) + a`,
+	`mk := func() { func walk(k) { if k == 0 { return a }; return walk(k - 1) + 1 }; return walk }; mk()(3)`,
+	`f := func(x, y=7, z="", w=false, v=0) { return x + y + v }; f(a) + f(a, b)`,
+	`s := 0; for i := 0; i < 3; i++ { if i == 1 { continue }; s += i }; g := func() { }; g(); s + a`,
 }
 
 func c17SameCode(x, y *compiler.Code, depth int) bool {
